@@ -48,7 +48,8 @@ def gen_scenario(rng):
     reqs = [{"n": n, "k": kind, "w": w}]
     if rng.random() < 0.4:
         n2 = rng.choice([10, base + 1, 2 * sndbuf])
-        reqs.append({"n": n2, "k": rng.choice(["cl", "write"]), "w": max(base, n2 // 8)})
+        # (a wsgi.file_wrapper body is one write of the file's size: it must wait for room like any other)
+        reqs.append({"n": n2, "k": rng.choice(["cl", "write", "fw", "fw"]), "w": max(base, n2 // 8)})
     if rng.random() < 0.15:
         reqs.insert(0, {"n": 20, "k": "cl"})
         reqs[1]["m"] = "POST"
@@ -83,6 +84,11 @@ def directed():
                        {"mode": "disconnect", "after": 300, "how": "close"}, {"mode": "stall", "after": 300, "resume": 5.0}):
             out.append({"adj": {"threads": 1, "outbuf_high_watermark": mark, "send_bytes": 1}, "sndbuf": 256,
                         "conns": [{"requests": [{"n": 900, "k": "gen", "w": base + 1}, {"n": 10, "k": "cl"}], "sndbuf": 256, "reader": reader}]})
+    # a file_wrapper response queued behind a backlog that is above the mark (reader slow / stalled for a while)
+    for mark in (64, 1):
+        out.append({"adj": {"threads": 1, "outbuf_high_watermark": mark, "send_bytes": 1, "channel_request_lookahead": 0}, "sndbuf": 256,
+                    "conns": [{"requests": [{"n": 700, "k": "write", "w": mark + 200}, {"n": 900, "k": "fw"}], "sndbuf": 256,
+                               "reader": {"mode": "stall", "after": 100, "resume": 5.0}}]})
     # a send() that fails right after the send that brought the backlog back under the mark
     for mark, sndbuf, k in ((64, 256, 3), (64, 256, 4), (4096, 2048, 3), (4096, 2048, 4)):
         out.append({"adj": {"threads": 1, "outbuf_high_watermark": mark, "send_bytes": 1}, "sndbuf": sndbuf,
@@ -100,7 +106,7 @@ def plan(tier, seed):
         specs.append({"mode": "random", "seed": seed * 1019 + i, "n": per})
     ds = directed()
     if tier == "quick":
-        ds = [ds[0], ds[1], ds[6], ds[11], ds[12], ds[14]]
+        ds = [ds[0], ds[1], ds[6], ds[11], ds[12], ds[13], ds[14], ds[16]]
     parts = 4
     for scn in ds:
         for p in range(parts):
